@@ -1,7 +1,8 @@
 (* C11 (b): the state-file replace protocol of colvarmodule::write_restart_file ->
    colvarproxy_io::output_stream -> backup_file -> rename_file -> std::ofstream -> close_output_stream
-   (src/colvarmodule.cpp, src/colvarproxy_io.cpp), as the sequence of file system calls the code
-   issues, with an environment that decides the outcome of every call: success, an error return
+   (src/colvarmodule.cpp, src/colvarproxy_io.cpp, with the two fix: commits of this slice: output_stream
+   gives up when backup_file fails; close_output_stream reports a failed last write/close), as the
+   sequence of file system calls the code issues, with an environment that decides the outcome of every call: success, an error return
    (process continues), or death of the process (a write may persist any prefix first).
    Definitions only. *)
 From Coq Require Import NArith List Bool.
@@ -56,63 +57,87 @@ Fixpoint write_chunks (m : mach) (chunks : list N) : mach * option bool :=
     end
   end.
 
-(* close_output_stream: flush what is left in the filebuf (the error is not looked at), close
-   (not looked at either), delete the stream and erase it from the registry *)
-Definition close_stream (m : mach) (tail : N) : mach * bool :=
-  let '(m1, dead) :=
-    if tail =? 0 then (m, false)
+(* close_output_stream: ofstream::close() flushes what is left in the filebuf and closes the file
+   (the file is closed even when the flush failed); failbit tells whether either step failed; the
+   stream is deleted and erased from the registry; the result is passed on by write_restart_file.
+   None = the process died; Some failed otherwise *)
+Definition close_stream (m : mach) (tail : N) : mach * option bool :=
+  let '(m1, w) :=
+    if tail =? 0 then (m, Some false)
     else let '(o, m1) := pop m (SWrite tail) in
          match o with
-         | OOk => (set_fs m1 (add_bytes (m_fs m1) tail), false)
-         | OErr => (m1, false)
-         | OKill j => (set_fs m1 (add_bytes (m_fs m1) (N.min j tail)), true)
+         | OOk => (set_fs m1 (add_bytes (m_fs m1) tail), Some false)
+         | OErr => (m1, Some true)
+         | OKill j => (set_fs m1 (add_bytes (m_fs m1) (N.min j tail)), None)
          end in
-  if dead then (m1, true)
-  else let '(o, m2) := pop m1 SClose in
-       match o with OKill _ => (m2, true) | _ => (set_reg m2 NotOpen, false) end.
+  match w with
+  | None => (m1, None)
+  | Some failed =>
+    let '(o, m2) := pop m1 SClose in
+    match o with
+    | OKill _ => (m2, None)
+    | OErr => (set_reg m2 NotOpen, Some true)
+    | OOk => (set_reg m2 NotOpen, Some failed)
+    end
+  end.
 
-Definition body (m : mach) (chunks : list N) (tail : N) (err : bool) : mach * result :=
+(* write_state() into the open stream, then close_output_stream() *)
+Definition body (m : mach) (chunks : list N) (tail : N) : mach * result :=
   let '(m1, w) := write_chunks m chunks in
   match w with
   | None => (m1, Dead)
   | Some true => (set_reg m1 (Open true), Done false)     (* return cvm::error(...): the stream stays registered *)
   | Some false =>
-    let '(m2, dead) := close_stream m1 tail in
-    if dead then (m2, Dead) else (m2, Done (negb err))
+    let '(m2, c) := close_stream m1 tail in
+    match c with
+    | None => (m2, Dead)
+    | Some failed => (m2, Done (negb failed))
+    end
   end.
 
 Definition total_of (chunks : list N) (tail : N) : N := fold_right N.add tail chunks.
+
+(* backup_file(): access(); if the file is there, rename it to <name>.old.
+   None = the process died; Some failed otherwise (any error of access other than ENOENT, or of rename) *)
+Definition backup (m : mach) : mach * option bool :=
+  let '(o1, m1) := pop m SAccess in
+  match o1 with
+  | OKill _ => (m1, None)
+  | OErr => (m1, Some true)
+  | OOk =>
+    match cur (m_fs m1) with
+    | None => (m1, Some false)                           (* ENOENT *)
+    | Some _ =>
+      let '(o2, m2) := pop m1 SRename in
+      match o2 with
+      | OKill _ => (m2, None)
+      | OErr => (m2, Some true)                          (* rename_file logs and returns COLVARS_FILE_ERROR *)
+      | OOk => (set_fs m2 (mkFS None (cur (m_fs m2))), Some false)
+      end
+    end
+  end.
+
+(* new std::ofstream(name): creates or truncates the file; then the state is written and the stream closed *)
+Definition open_and_write (m : mach) (v : N) (chunks : list N) (tail : N) : mach * result :=
+  let '(o3, m3) := pop m SOpen in
+  match o3 with
+  | OKill _ => (m3, Dead)
+  | OErr => (set_reg m3 (Open true), Done false)         (* the failed stream stays in the registry *)
+  | OOk => body (set_reg (set_fs m3 (mkFS (Some (mkF v 0 (total_of chunks tail))) (old (m_fs m3)))) (Open false))
+                chunks tail
+  end.
 
 (* one call of colvarmodule::write_restart_file(out_name) for state v *)
 Definition save (m : mach) (v : N) (chunks : list N) (tail : N) : mach * result :=
   match m_reg m with
   | Open true => (m, Done false)             (* if (!restart_out_os) return COLVARS_FILE_ERROR; *)
-  | Open false => body m chunks tail false   (* registered stream returned as is: no backup, no truncation *)
+  | Open false => body m chunks tail         (* registered stream returned as is: no backup, no truncation *)
   | NotOpen =>
-    let '(o1, m1) := pop m SAccess in
-    match o1 with
-    | OKill _ => (m1, Dead)
-    | _ =>
-      let err := match o1 with OErr => true | _ => false end in
-      let present := match o1, cur (m_fs m1) with OOk, Some _ => true | _, _ => false end in
-      let '(m2, dead2) :=
-        if present then
-          let '(o2, m2) := pop m1 SRename in
-          match o2 with
-          | OKill _ => (m2, true)
-          | OErr => (m2, false)                (* rename_file logs; output_stream ignores backup_file's result *)
-          | OOk => (set_fs m2 (mkFS None (cur (m_fs m2))), false)
-          end
-        else (m1, false) in
-      if dead2 then (m2, Dead)
-      else
-        let '(o3, m3) := pop m2 SOpen in
-        match o3 with
-        | OKill _ => (m3, Dead)
-        | OErr => (set_reg m3 (Open true), Done false)
-        | OOk => body (set_reg (set_fs m3 (mkFS (Some (mkF v 0 (total_of chunks tail))) (old (m_fs m3)))) (Open false))
-                      chunks tail err
-        end
+    let '(m1, b) := backup m in
+    match b with
+    | None => (m1, Dead)
+    | Some true => (m1, Done false)          (* output_stream returns the error stream: nothing is opened *)
+    | Some false => open_and_write m1 v chunks tail
     end
   end.
 
@@ -127,6 +152,19 @@ Fixpoint session (m : mach) (l : list saveop) : mach * list result :=
     match res with
     | Dead => (m1, [Dead])
     | _ => let '(m2, rs) := session m1 r in (m2, res :: rs)
+    end
+  end.
+
+(* the same when the host stops saving after the first save that reports an error (a state file
+   error is fatal for the engines: they stop the run) *)
+Fixpoint session_abort (m : mach) (l : list saveop) : mach * list result :=
+  match l with
+  | [] => (m, [])
+  | s :: r =>
+    let '(m1, res) := save m (s_ver s) (s_chunks s) (s_tail s) in
+    match res with
+    | Done true => let '(m2, rs) := session_abort m1 r in (m2, res :: rs)
+    | _ => (m1, [res])
     end
   end.
 
